@@ -158,6 +158,10 @@ def correspondence(ctx):
             gh = ",".join(items)
             results["github"] = lambda: VR.build_range_from_github_advisory_constraint(scheme, gh)
             results["github-list"] = lambda: VR.build_range_from_github_advisory_constraint(scheme, items)
+            # the items given as a tuple, and as a one-shot iterable (an iterator, map()): lists like any other
+            results["github-tuple"] = lambda: VR.build_range_from_github_advisory_constraint(scheme, tuple(items))
+            results["github-iterator"] = lambda: VR.build_range_from_github_advisory_constraint(scheme, iter(list(items)))
+            results["github-map"] = lambda: VR.build_range_from_github_advisory_constraint(scheme, map(str, items))
             # Snyk comma / space
             sk = [(_spell(rng, c, VR.vers_by_snyk_native_comparators), v) for c, v in pairs]
             sc = "".join(("," + (sp() or " ") if i else "") + "%s%s" % (o, v) for i, (o, v) in enumerate(sk))
@@ -176,6 +180,7 @@ def correspondence(ctx):
                     return rng.choice([", ", " ", " ", ","]).join("%s%s" % (o, v) for o, v in ch)
                 mixed = [item(chunks[0], pairs[:cut]), item(chunks[1], pairs[cut:])]
                 results["snyk-list"] = lambda mixed=mixed: VR.build_range_from_snyk_advisory_string(scheme, mixed)
+                results["snyk-iterator"] = lambda mixed=mixed: VR.build_range_from_snyk_advisory_string(scheme, iter(list(mixed)))
             # Snyk bracket interval for a lower+upper pair
             if len(pairs) == 2 and pairs[0][0] in ("gt", "ge") and pairs[1][0] in ("lt", "le"):
                 br = ("[" if pairs[0][0] == "ge" else "(") + pairs[0][1] + "," + pairs[1][1] + ("]" if pairs[1][0] == "le" else ")")
